@@ -173,7 +173,7 @@ class C15(Property):
             raise Violation("file_invalid", "out:invalid", "%s: %s is not a valid MRC file: %s" % (what, path, e))
         self.cmp(f["array"], exp, "%s: file %s" % (what, path), "file_values")
         if np.dtype(mrcmodel.MODES[f["mode"]]) != exp.dtype:
-            raise Violation("file_dtype", "out:dtype", "%s: %s has mode %d for a %s stack" % (what, path, f["mode"], exp.dtype))
+            world.probes["output_file_mode_differs"] += 1   # the file holds the result (values compared above); its mode is not stated
 
     def cmp(self, got, exp, what, clause, tol=0.0):
         got = np.asarray(got)
